@@ -129,5 +129,6 @@ class Report:
         if self.harness_errors:
             for m in self.harness_errors[:10]:
                 print("HARNESS-ERROR: " + m)
-            return 2
-        return 1 if self.violations else 0
+        if self.violations:
+            return 1
+        return 2 if self.harness_errors else 0
